@@ -344,6 +344,13 @@ func (fx *fnExec) applyContract(st *state, in ssa.Instruction, ct *Contract, inf
 			fx.havocLoc(st, l, in)
 		}
 	}
+	// a field added after the baseline is mentioned by no contract: a callee of this module may have
+	// written it (its own stores to such a field are undecided, not frame violations), so after the call
+	// nothing is known about it. Without this the field keeps its initial value and code that depends on
+	// it becomes unreachable - vacuously "proved".
+	if info.fn != nil && info.fn.Pkg != nil && fx.g.isModulePkg(info.fn.Pkg.Pkg) {
+		fx.havocNewFields(st)
+	}
 	for _, le := range ct.Locks {
 		v := cpre.eval(le)
 		if v.typ != nil {
@@ -1097,4 +1104,59 @@ func pureExternal(fn *ssa.Function) bool {
 		return !strings.HasPrefix(fn.Name(), "Append")
 	}
 	return false
+}
+
+// isModulePkg: the package is one of the repository's own packages (its struct types are in the baseline).
+func (g *Gen) isModulePkg(p *types.Package) bool {
+	if p == nil {
+		return false
+	}
+	for k := range oldFields {
+		if strings.HasPrefix(k, p.Path()+".") {
+			return true
+		}
+	}
+	return false
+}
+
+// havocNewFields gives an arbitrary (well-formed) value to every heap array of a struct field that the
+// baseline does not know.
+func (fx *fnExec) havocNewFields(st *state) {
+	for _, pk := range fx.g.allPkgs {
+		if !fx.g.isModulePkg(pk) {
+			continue
+		}
+		sc := pk.Scope()
+		for _, nm := range sc.Names() {
+			tn, ok := sc.Lookup(nm).(*types.TypeName)
+			if !ok {
+				continue
+			}
+			stt := structOf(tn.Type())
+			if stt == nil {
+				continue
+			}
+			old, ok := oldFields[pk.Path()+"."+tn.Name()]
+			if !ok {
+				continue
+			}
+			for i := 0; i < stt.NumFields(); i++ {
+				known := false
+				for _, f := range old {
+					if f == stt.Field(i).Name() {
+						known = true
+					}
+				}
+				if known {
+					continue
+				}
+				arr, srt := fx.fieldArr(tn.Type(), i)
+				st.heap[arr] = fx.fresh("h!"+arr, srt)
+				fx.heapSort[arr] = srt
+				if wf := fx.heapWF(arr, st.heap[arr], st.alloc); wf != "" {
+					fx.assume(wf)
+				}
+			}
+		}
+	}
 }
